@@ -756,3 +756,28 @@ func fieldStores(a *ssa.Alloc) []fieldStore {
 	}
 	return out
 }
+
+// returnValues resolves defer-spilled results: in a function with defers a
+// `return x, y` is lowered to stores into result allocs, rundefers, loads.
+func returnValues(r *ssa.Return) []ssa.Value {
+	out := make([]ssa.Value, len(r.Results))
+	for k, v := range r.Results {
+		out[k] = v
+		u, ok := v.(*ssa.UnOp)
+		if !ok || u.Op != token.MUL {
+			continue
+		}
+		al, ok := u.X.(*ssa.Alloc)
+		if !ok {
+			continue
+		}
+		b := r.Block()
+		for i := indexOf(r) - 1; i >= 0; i-- {
+			if st, ok := b.Instrs[i].(*ssa.Store); ok && st.Addr == ssa.Value(al) {
+				out[k] = st.Val
+				break
+			}
+		}
+	}
+	return out
+}
